@@ -169,6 +169,9 @@ pub fn case_json(c: &Case) -> Value {
 }
 
 impl Check for C03 {
+    fn judges_memory_budget(&self) -> bool {
+        true
+    }
     fn id(&self) -> &'static str {
         "C03"
     }
